@@ -97,6 +97,16 @@ def run(v):
                     "c09_mc_null", workers=4, timeout=900, coverage=False)
     if rn.violated != "LastWordUnlessOverlapped":
         raise common.ToolError("MC_LspServer: the null-settings deviation is not refuted (vacuous invariant)")
+    # a named deviation: didSave takes the file's contents for the document (the file may differ from the buffer)
+    rsv = common.tlc(os.path.join(SPEC, "mc", "MC_LspServer.tla"), os.path.join(SPEC, "mc", "MC_LspServer_dev_savereadsdisk.cfg"),
+                     "c09_mc_save", workers=4, timeout=900, coverage=False)
+    if rsv.violated != "LastWordUnlessOverlapped":
+        raise common.ToolError("MC_LspServer: the save-reads-disk deviation is not refuted (vacuous invariant)")
+    rtm = common.tlc(os.path.join(SPEC, "mc", "MC_LspServer.tla"), os.path.join(SPEC, "mc", "MC_LspServer_tamper.cfg"),
+                     "c09_mc_tamper", workers=4, timeout=900, coverage=False)
+    if rtm.violated:
+        v.failure({"kind": "model", "invariant": rtm.violated, "cfg": "tamper"}, {"tlc_output": rtm.output[-3000:]})
+    v.add_mc("MC_LspServer/tamper", rtm, "the file behind an open document may come to differ from the buffer: LastWordUnlessOverlapped")
     # the user dictionary as server state (UserDict.tla): model, named deviation refuted, real sessions validated
     mcu = os.path.join(SPEC, "mc", "MC_UserDict.tla")
     ru = common.tlc(mcu, os.path.join(SPEC, "mc", "MC_UserDict_dev_onlynamed.cfg"), "c09_ud_dev", workers=2, timeout=600, coverage=False)
